@@ -474,7 +474,61 @@ class HsFamily(Family):
         return len(ops) > 1
 
 
-FAMILIES = {f.name: f for f in [TimeFamily(), AmfFamily(), AmfAdvFamily(), ChunkFamily(), ForeignFamily(), MsgFamily(), HsFamily()]}
+# ------------------------------------------------------------------------------------------- sess
+import gen_sess as GS
+
+
+class ServerFamily(Family):
+    name = "server"
+    timeout_s = 900
+    panic_is_failure = True
+    anchored = ["rtmp/src/sessions/server/mod.rs"]
+    rule = ("one case = one server-session history: random walk (length 1..25) over peer messages {connect with app variants / "
+            "missing / non-string app, createStream, publish and play with every argument shape, closeStream, deleteStream, audio, "
+            "video, @setDataFrame variants, ping and other user-control, unknown and malformed commands, ack / window / bandwidth / "
+            "abort, SetChunkSize incl. 0 and 2^31, unknown type ids, several messages per call, a good message followed by a failing "
+            "one in the same call} sent as chunk streams by the independent sender under random call partitions, interleaved with "
+            "application calls {accept, reject (valid, stale, never-issued ids), send audio/video/metadata, ping, finish_playing} on "
+            "stream ids from {0, created, closed, deleted, never created}; clock readings (hook H2) jump across 2^24 and 2^32 ms; every "
+            "op is interpreted by the real session and the model, outbound packets are compared after reading them with the "
+            "reference chunk reader (headers byte-exact, AMF0 bodies as sorted maps); float casts f64→u32/f32 on boundary patterns; "
+            "non-trivial = ≥ 3 ops; distinct = distinct op text")
+
+    def gen(self, rng, tier, pid, stats):
+        yield [f"f64 {b:016x}" for b in GA.NUM_EDGES] + [f"f64 {GS.f64bits(x):016x}" for x in (4294967295.0, 4294967295.5, 4294967296.0, 0.999, 1e-46, 1e39, 3.4028235e38, 3.4028236e38, 16777217.0, 1.0000000596046448, 1.401298464324817e-45, 7e-46, 29.97)]
+        yield [f"f64 {rng.next():016x}" for _ in range(400)] + [f"f32 {rng.below(1 << 32):08x}" for _ in range(300)] + ["f32 00000001", "f32 007fffff", "f32 7f800000", "f32 7fc00001", "f32 ff800000", "f32 80000000", "f32 00800000"]
+        yield [f"u32f {n}" for n in (0, 1, 2, 3, 255, 65535, 16777215, 16777216, 16777217, (1 << 31) - 1, 1 << 31, M32 - 1)] + [f"u32f {rng.below(M32)}" for _ in range(100)]
+        n = 700 if tier == "quick" else 8000
+        for _ in range(n):
+            yield GS.server_case(rng, stats, rng.range(1, 25), pid)
+
+    def nontrivial(self, ops):
+        return len(ops) >= 3
+
+
+class ClientFamily(Family):
+    name = "client"
+    timeout_s = 900
+    anchored = ["rtmp/src/sessions/client/mod.rs"]
+    rule = ("one case = one client-session history: random walk (length 1..25) over the public calls {request_connection, "
+            "request_playback, request_publishing, stop_playback, stop_publishing, publish_metadata/audio/video, send_ping_request} "
+            "and server messages {_result / _error with current, stale, never-issued and non-integral transaction ids, with / without / "
+            "non-numeric stream id, onStatus with start codes, unknown and malformed codes, audio / video / onMetaData on the active or "
+            "another stream, ping, ack / window / bandwidth / abort / SetChunkSize, unknown commands and type ids, malformed commands, "
+            "two messages in one call with the second failing}; same comparison as the server family; non-trivial = ≥ 3 ops; distinct = "
+            "distinct op text")
+
+    def gen(self, rng, tier, pid, stats):
+        n = 700 if tier == "quick" else 8000
+        for _ in range(n):
+            yield GS.client_case(rng, stats, rng.range(1, 25), pid)
+
+    def nontrivial(self, ops):
+        return len(ops) >= 3
+
+
+FAMILIES = {f.name: f for f in [TimeFamily(), AmfFamily(), AmfAdvFamily(), ChunkFamily(), ForeignFamily(), MsgFamily(), HsFamily(),
+                                 ServerFamily(), ClientFamily()]}
 
 
 # ------------------------------------------------------------------------------- known findings
